@@ -251,7 +251,7 @@ def _squid(L):
         return {"headers": reply_headers(rep, ck.t), "nodate": True, "body": rep.get("body", "body")}
 
     _state["org"] = L.origin(hook=hook)
-    _state["sq"] = L.squid(env=ck.env())
+    _state["sq"] = L.squid(env=ck.env(), extra_conf="cachemgr_passwd none config\n")   # only opens the config report
     _state["n"] = 0
 
 
@@ -260,21 +260,18 @@ def mgr_config(sq):
     r, raw = lab.get(sq.port, "http://verif.test:%d/squid-internal-mgr/config" % sq.port)
     if r is None or r.status != 200:
         return "config unavailable status=%s" % (r.status if r else None)
-    txt = r.body.decode("latin1")
-    vals = {}
-    npat = 0
-    for line in txt.splitlines():
+    vals = {"refresh_pattern_lines": 0}
+    for line in r.body.decode("latin1").splitlines():
         w = line.split()
         if not w: continue
-        if w[0] == "refresh_pattern": npat += 1
-        if w[0] in ("max_stale", "minimum_expiry_time") and len(w) >= 2:
+        if w[0] == "refresh_pattern": vals["refresh_pattern_lines"] += 1
+        elif w[0] in ("max_stale", "minimum_expiry_time", "negative_ttl") and len(w) >= 2:
             vals[w[0]] = w[1]
-        if w[0] in ("refresh_all_ims", "reload_into_ims", "offline_mode") and len(w) >= 2:
-            vals[w[0]] = "1" if w[1] == "on" else "0"
-    if npat:
-        return "config refresh_pattern-lines=%d" % npat
+        elif w[0] in ("refresh_all_ims", "reload_into_ims", "offline_mode", "vary_ignore_expire", "collapsed_forwarding") and len(w) >= 2:
+            vals[w[0]] = {"on": "1", "off": "0"}.get(w[1], w[1])
     return "config " + " ".join("%s=%s" % (k, vals.get(k, "?")) for k in
-                                ("max_stale", "minimum_expiry_time", "refresh_all_ims", "reload_into_ims", "offline_mode"))
+                                ("max_stale", "minimum_expiry_time", "refresh_all_ims", "reload_into_ims", "offline_mode",
+                                 "negative_ttl", "vary_ignore_expire", "collapsed_forwarding", "refresh_pattern_lines"))
 
 
 def run_one(s):
